@@ -38,8 +38,8 @@ Whole(k, tok, n) == [i \in 1..n |-> [k |-> k, v |-> tok, i |-> i]]
 \* abstract state; P0 = part ids stored initially (with P0n chunks each)
 AInit(P0, P0n) ==
          [m |-> [k \in Keys |-> None],            \* generic cache: key -> bound value
-          present |-> [k \in Keys |-> IF k \in P0 THEN P0n ELSE 0],  \* part store: id -> number of chunks stored (0 = absent)
-          stale |-> [k \in Keys |-> 0],           \* deviation: deleted bytes possibly left in the cache
+          present |-> [k \in Keys |-> IF k \in P0 THEN [tok |-> "p", n |-> P0n] ELSE None],  \* part store: id -> stored value (None = absent)
+          stale |-> [k \in Keys |-> None],        \* deviation: deleted bytes possibly left in the cache
           toks |-> [k \in Keys |-> {}]]           \* value tokens of Set calls invoked so far
 
 \* what a reader of a file that is being truncated / rewritten in place can see: chunks written for that key by
@@ -74,21 +74,21 @@ Lin(A, pers, op, res, others) ==
          ELSE IF RacyMap(pers) THEN Accept(A, {"D-C19-inmem-map-race"})
          ELSE Reject(A)
     [] op.kind = "pput" ->
-         IF res.st = "ok" THEN Accept([A EXCEPT !.present[k] = op.n], {}) ELSE Reject(A)
+         IF res.st = "ok" THEN Accept([A EXCEPT !.present[k] = [tok |-> op.v, n |-> op.n]], {}) ELSE Reject(A)
     [] op.kind = "pdel" ->
          IF res.st = "ok"
-         THEN Accept([A EXCEPT !.present[k] = 0,
-                               !.stale[k] = IF Dev("D-C19-stale-after-delete") /\ others THEN op.n ELSE 0], {})
+         THEN Accept([A EXCEPT !.present[k] = None,
+                               !.stale[k] = IF Dev("D-C19-stale-after-delete") /\ others THEN [tok |-> op.v, n |-> op.n] ELSE None], {})
          ELSE Reject(A)
     [] op.kind = "pget" ->
-         IF res.st = "notfound" THEN (IF A.present[k] = 0 THEN Accept(A, {}) ELSE Reject(A))
+         IF res.st = "notfound" THEN (IF A.present[k] = None THEN Accept(A, {}) ELSE Reject(A))
          ELSE IF res.st # "hit" THEN Reject(A)
-         ELSE IF A.present[k] > 0 /\ res.chunks = Whole(k, "p", A.present[k]) THEN Accept(A, {})
-         ELSE IF A.present[k] = 0 /\ A.stale[k] > 0 /\ res.chunks = Whole(k, "p", A.stale[k])
+         ELSE IF A.present[k] # None /\ res.chunks = Whole(k, A.present[k].tok, A.present[k].n) THEN Accept(A, {})
+         ELSE IF A.present[k] = None /\ A.stale[k] # None /\ res.chunks = Whole(k, A.stale[k].tok, A.stale[k].n)
               THEN Accept(A, {"D-C19-stale-after-delete"})
          ELSE IF Dev("D-C19-partial-read") /\ pers = "fs" /\ Fragments(A, k, res.chunks)
-                 /\ (A.present[k] > 0 \/ A.stale[k] > 0)
-              THEN Accept(A, {"D-C19-partial-read"} \cup (IF A.present[k] = 0 THEN {"D-C19-stale-after-delete"} ELSE {}))
+                 /\ (A.present[k] # None \/ A.stale[k] # None)
+              THEN Accept(A, {"D-C19-partial-read"} \cup (IF A.present[k] = None THEN {"D-C19-stale-after-delete"} ELSE {}))
          ELSE IF RacyMap(pers) THEN Accept(A, {"D-C19-inmem-map-race"})
          ELSE Reject(A)
     [] OTHER -> Reject(A)
